@@ -141,7 +141,7 @@ def make_h_scope(nlines):
         elif second != "none":
             ctx.assume(False)
         # a character that str.splitlines() treats as a line break but compilers do not (form feed, VT, FS, NEL, LS) in line 1
-        odd = ctx.pick("odd_separator_character_in_line_1", ("none", "\x0c", "\x0b", "\x1c", "\x85", "\u2028"))
+        odd = ctx.pick("odd_separator_character_in_line_1", ("none", "\x0c", "\u2028") if nlines <= 8 else ("none", "\x0c", "\x0b", "\x1c", "\x85", "\u2028"))
         if odd != "none":
             if "ignore" in lines[0]:
                 ctx.assume(False)
